@@ -149,6 +149,28 @@ def rule_set_id(ctx, cfg, F, backend):
             R.violate("%s:parallel-remove" % sel.path, "the parallel vectors are not both removed at the same index (%d removes on %s)" % (len(rem), sorted(map(str, vecs))), sel.path, sel.loc(0), config=cfg)
 
 
+def _reach_without_poll_error(f, tr, pb):
+    """blocks reachable from the poll call without taking an edge that says its result is an Err"""
+    seen, todo = set(), [f.term(pb)["to"]]
+    while todo:
+        b = todo.pop()
+        if b is None or b in seen or b == pb:
+            continue
+        seen.add(b)
+        for s_ in f.succ(b):
+            if f.is_cleanup(s_):
+                continue
+            err_edge = False
+            for lab in edge_label(f, b, s_):
+                if lab["kind"] in ("variant", "variant_not") and lab.get("variant") == "Err" and lab.get("adt") == "std::result::Result":
+                    rs = tr.roots_of_place(lab["place"])
+                    if any(r.kind == "call" and r.block == pb for r in rs):
+                        err_edge = True
+            if not err_edge:
+                todo.append(s_)
+    return seen
+
+
 def rule_set_unix(ctx, cfg, F):
     Rd = ctx.rule("SET-DRAIN", "registrations are edge-triggered, so after a successful member read every path reads again: the per-member loop is left only on the closed edge, "
                   "the would-block edge or an error return")
@@ -292,6 +314,8 @@ def rule_set_unix(ctx, cfg, F):
                                         rets.append(x)
                                 # errors of the member reads that follow are not errors of the wait
                                 rets = [x for x in rets if not any(rb_ in reach and f.dominates(rb_, x) for rb_, _ in reads)]
+                                # ... nor is anything else that a successful wait reaches as well (setting up for the reads, after the loop)
+                                rets = [x for x in rets if x not in _reach_without_poll_error(f, tr, pb)]
                                 if rets:
                                     Re.violate("%s:eintr-returns" % f.path, "an interrupted wait (EINTR) can reach a return instead of polling again", f.path, f.loc(b), config=cfg)
                                 elif pb not in f.reachable(s):
